@@ -773,6 +773,8 @@ Feats(e, sc, P) ==
                       \cup (IF e.r.k = "paren" THEN {"grp:" \o OpClass(e.op) \o ":R:" \o Inner(e.r.e)} ELSE {})
                       \cup Feats(e.l, sc, P) \cup Feats(e.r, sc, P)
     [] e.k = "call" -> {"call:" \o e.f \o ":" \o (IF e.args = <<>> THEN "" ELSE TypeOf(e.args[1], sc, P))} \cup FeatsSeq(e.args, sc, P)
+                       \* a builtin applied to an operator expression: the argument is a group (no parenthesis is written)
+                       \cup (IF e.f \in {"abs"} /\ e.args # <<>> /\ e.args[1].k \in {"bin", "un"} THEN {"builtin-arg-group:" \o e.f} ELSE {})
     [] e.k = "index" -> {"index:" \o TypeOf(e.obj, sc, P)} \cup Feats(e.obj, sc, P) \cup Feats(e.idx, sc, P)
     [] e.k = "slice" -> {"slice:" \o TypeOf(e.obj, sc, P),
                          "slice-shape:" \o (IF e.start = <<>> THEN "_" ELSE "a") \o (IF e.end = <<>> THEN "_" ELSE "b")
